@@ -204,9 +204,7 @@ impl SqPackData {
     ///
     /// If the block of data is successfully parsed, it returns the file data - otherwise is None.
     pub fn read_from_offset(&mut self, offset: u64) -> Option<ByteBuffer> {
-        self.file
-            .seek(SeekFrom::Start(offset))
-            .expect("Unable to find offset in file.");
+        self.file.seek(SeekFrom::Start(offset)).ok()?;
 
         let file_info = FileInfo::read(&mut self.file).ok()?;
 
@@ -222,24 +220,23 @@ impl SqPackData {
     fn read_standard_file(&mut self, offset: u64, file_info: &FileInfo) -> Option<ByteBuffer> {
         let standard_file_info = file_info.standard_info.as_ref()?;
 
-        let mut blocks: Vec<Block> = Vec::with_capacity(standard_file_info.num_blocks as usize);
+        // the counts in the header are not trusted with an up-front allocation
+        let mut blocks: Vec<Block> = Vec::new();
 
         for _ in 0..standard_file_info.num_blocks {
             blocks.push(Block::read(&mut self.file).ok()?);
         }
 
-        let mut data: Vec<u8> = Vec::with_capacity(file_info.file_size as usize);
+        let mut data: Vec<u8> = Vec::new();
 
-        let starting_position = offset + (file_info.size as u64);
+        let starting_position = offset.checked_add(file_info.size as u64)?;
 
         for i in 0..standard_file_info.num_blocks {
-            data.append(
-                &mut read_data_block(
-                    &mut self.file,
-                    starting_position + (blocks[i as usize].offset as u64),
-                )
-                .expect("Failed to read data block."),
-            );
+            let block_offset = u64::try_from(blocks[i as usize].offset).ok()?;
+            data.append(&mut read_data_block(
+                &mut self.file,
+                starting_position.checked_add(block_offset)?,
+            )?);
         }
 
         Some(data)
@@ -251,11 +248,19 @@ impl SqPackData {
 
         let mut buffer = Cursor::new(Vec::new());
 
-        let base_offset = offset + (file_info.size as u64);
+        let base_offset = offset.checked_add(file_info.size as u64)?;
 
-        let total_blocks = model_file_info.num.total();
+        // summed in usize: the eleven u16 counts can exceed u16::MAX together
+        let num = &model_file_info.num;
+        let total_blocks: usize = [num.stack_size, num.runtime_size]
+            .iter()
+            .chain(num.vertex_buffer_size.iter())
+            .chain(num.edge_geometry_vertex_buffer_size.iter())
+            .chain(num.index_buffer_size.iter())
+            .map(|x| *x as usize)
+            .sum();
 
-        let mut compressed_block_sizes: Vec<u16> = vec![0; total_blocks as usize];
+        let mut compressed_block_sizes: Vec<u16> = vec![0; total_blocks];
         let slice: &mut [u8] = to_u8_slice(&mut compressed_block_sizes);
 
         self.file.read_exact(slice).ok()?;
@@ -277,19 +282,20 @@ impl SqPackData {
 
         self.file
             .seek(SeekFrom::Start(
-                base_offset + (model_file_info.offset.stack_size as u64),
+                base_offset.checked_add(model_file_info.offset.stack_size as u64)?,
             ))
             .ok()?;
 
         // read from stack blocks
         let mut read_model_blocks = |offset: u64, size: usize| -> Option<u64> {
-            self.file.seek(SeekFrom::Start(base_offset + offset)).ok()?;
+            self.file
+                .seek(SeekFrom::Start(base_offset.checked_add(offset)?))
+                .ok()?;
             let stack_start = buffer.position();
             for _ in 0..size {
                 let last_pos = &self.file.stream_position().ok()?;
 
-                let data =
-                    read_data_block(&self.file, *last_pos).expect("Unable to read block data.");
+                let data = read_data_block(&self.file, *last_pos)?;
                 // write to buffer
                 buffer.write_all(data.as_slice()).ok()?;
 
@@ -318,7 +324,8 @@ impl SqPackData {
              size: u32,
              offset: u32,
              offsets: &mut [u32; 3],
-             data_sizes: &mut [u32; 3]| {
+             data_sizes: &mut [u32; 3]|
+             -> Option<()> {
                 if size != 0 {
                     let current_vertex_offset = buffer.position() as u32;
                     if i == 0 || current_vertex_offset != offsets[i - 1] {
@@ -328,28 +335,27 @@ impl SqPackData {
                     }
 
                     self.file
-                        .seek(SeekFrom::Start(base_offset + (offset as u64)))
+                        .seek(SeekFrom::Start(base_offset.checked_add(offset as u64)?))
                         .ok();
 
                     for _ in 0..size {
-                        let last_pos = self.file.stream_position().unwrap();
+                        let last_pos = self.file.stream_position().ok()?;
 
-                        let data = read_data_block(&self.file, last_pos)
-                            .expect("Unable to read raw model block!");
+                        let data = read_data_block(&self.file, last_pos)?;
 
-                        buffer
-                            .write_all(data.as_slice())
-                            .expect("Unable to write to memory buffer!");
+                        buffer.write_all(data.as_slice()).ok()?;
 
-                        data_sizes[i] += data.len() as u32;
+                        data_sizes[i] = data_sizes[i].checked_add(data.len() as u32)?;
                         self.file
                             .seek(SeekFrom::Start(
                                 last_pos + (compressed_block_sizes[current_block] as u64),
                             ))
-                            .expect("Unable to seek properly.");
+                            .ok()?;
                         current_block += 1;
                     }
                 }
+
+                Some(())
             };
 
         // process all 3 lods
@@ -361,7 +367,7 @@ impl SqPackData {
                 model_file_info.offset.vertex_buffer_size[i],
                 &mut vertex_data_offsets,
                 &mut vertex_data_sizes,
-            );
+            )?;
 
             // process edge geometry
             process_model_data(
@@ -370,7 +376,7 @@ impl SqPackData {
                 model_file_info.offset.edge_geometry_vertex_buffer_size[i],
                 &mut edge_data_offsets,
                 &mut edge_data_sizes,
-            );
+            )?;
 
             // process indices
             process_model_data(
@@ -379,7 +385,7 @@ impl SqPackData {
                 model_file_info.offset.index_buffer_size[i],
                 &mut index_data_offsets,
                 &mut index_data_sizes,
-            );
+            )?;
         }
 
         let header = ModelFileHeader {
@@ -408,19 +414,28 @@ impl SqPackData {
     fn read_texture_file(&mut self, offset: u64, file_info: &FileInfo) -> Option<ByteBuffer> {
         let texture_file_info = file_info.texture_info.as_ref()?;
 
-        let mut data: Vec<u8> = Vec::with_capacity(file_info.file_size as usize);
+        let mut data: Vec<u8> = Vec::new();
 
         // write the header if it exists
-        let mipmap_size = texture_file_info.lods[0].compressed_size;
+        let first_lod = texture_file_info.lods.first()?;
+        let mipmap_size = first_lod.compressed_size;
         if mipmap_size != 0 {
             let original_pos = self.file.stream_position().ok()?;
 
             self.file
-                .seek(SeekFrom::Start(offset + file_info.size as u64))
+                .seek(SeekFrom::Start(offset.checked_add(file_info.size as u64)?))
                 .ok()?;
 
-            let mut header = vec![0u8; texture_file_info.lods[0].compressed_offset as usize];
-            self.file.read_exact(&mut header).ok()?;
+            // read what is there instead of trusting the header with an up-front allocation
+            let header_size = first_lod.compressed_offset as u64;
+            let mut header = Vec::new();
+            (&self.file)
+                .take(header_size)
+                .read_to_end(&mut header)
+                .ok()?;
+            if header.len() as u64 != header_size {
+                return None;
+            }
 
             data.append(&mut header);
 
@@ -430,8 +445,8 @@ impl SqPackData {
         for i in 0..texture_file_info.num_blocks {
             let mut running_block_total = (texture_file_info.lods[i as usize].compressed_offset
                 as u64)
-                + offset
-                + (file_info.size as u64);
+                .checked_add(offset)?
+                .checked_add(file_info.size as u64)?;
 
             for _ in 0..texture_file_info.lods[i as usize].block_count {
                 let original_pos = self.file.stream_position().ok()?;
@@ -440,7 +455,9 @@ impl SqPackData {
 
                 self.file.seek(SeekFrom::Start(original_pos)).ok()?;
 
-                running_block_total += self.file.read_le::<i16>().ok()? as u64;
+                // a negative block size is corrupt
+                let block_size = u64::try_from(self.file.read_le::<i16>().ok()?).ok()?;
+                running_block_total = running_block_total.checked_add(block_size)?;
             }
         }
 
